@@ -4,7 +4,9 @@ use crate::common::*;
 use async_trait::async_trait;
 use identity_core::common::{Object, OneOrMany, OneOrSet, OrderedSet, Timestamp, Url};
 use identity_core::convert::{FromJson, ToJson};
-use identity_credential::credential::{Credential, Jwt, RevocationBitmapStatus, Status};
+use identity_credential::credential::{Credential, Jwt, LinkedDomainService, LinkedVerifiablePresentationService, RevocationBitmapStatus, Status};
+use identity_credential::domain_linkage::{DomainLinkageConfiguration, JwtDomainLinkageValidator};
+use identity_credential::sd_jwt_vc::metadata::{ClaimMetadata, IssuerMetadata, TypeMetadata};
 use identity_credential::presentation::{JwtPresentationOptions, Presentation};
 use identity_credential::revocation::status_list_2021::{StatusList2021, StatusList2021Credential};
 use identity_credential::revocation::RevocationBitmap;
@@ -36,10 +38,15 @@ struct NoResolver;
 #[async_trait]
 impl Resolver<Url, Vec<u8>> for NoResolver { async fn resolve(&self, input: &Url) -> Result<Vec<u8>, resolver::Error> { Err(resolver::Error::NotFound(input.to_string())) } }
 #[async_trait]
+impl Resolver<Url, Value> for NoJsonResolver { async fn resolve(&self, input: &Url) -> Result<Value, resolver::Error> {
+  // answers with a type that extends itself / a schema, so that the recursive path is walked
+  if input.as_str().ends_with("/schema") { Ok(json!({"type": "object"})) } else if input.as_str().ends_with("/loop") { Ok(json!({"vct": "https://issuer.example/loop", "extends": "https://issuer.example/loop"})) } else { Err(resolver::Error::NotFound(input.to_string())) } } }
+struct NoJsonResolver;
+#[async_trait]
 impl Resolver<identity_core::common::StringOrUrl, Vec<u8>> for NoResolver { async fn resolve(&self, input: &identity_core::common::StringOrUrl) -> Result<Vec<u8>, resolver::Error> { Err(resolver::Error::NotFound(input.to_string())) } }
 
 const DOC: &str = r#"{"id":"did:example:issuer","verificationMethod":[{"id":"did:example:issuer#k","controller":"did:example:issuer","type":"JsonWebKey","publicKeyJwk":{"kty":"OKP","crv":"Ed25519","x":"11qYAYKxCrfVS_7TyWQHOg7hcvPapiMlrwIaaPcHURo"}},{"id":"did:example:issuer#p","controller":"did:example:issuer","type":"JsonWebKey","publicKeyJwk":{"kty":"EC","crv":"P-256","x":"MKBCTNIcKUSDii11ySs3526iDZ8AiTo7Tu6KPAqv7D4","y":"4Etl6SRW2YiLUrN5vfvVHuhp7x8PxltmWWlbbM4IFyM"}}],"authentication":["did:example:issuer#k"],"service":[{"id":"did:example:issuer#rev","type":"RevocationBitmap2022","serviceEndpoint":"data:application/octet-stream;base64,eJyzMmAAAwADKABr"}]}"#;
-pub const ENTRIES: usize = 34;
+pub const ENTRIES: usize = 42;
 fn s(bytes: &[u8]) -> String { String::from_utf8_lossy(bytes).to_string() }
 fn sink<T: std::fmt::Debug>(x: T) { let _ = format!("{:?}", x); }
 
@@ -87,6 +94,24 @@ fn run(e: i64, bytes: &[u8], extra: &[i64]) -> Vec<i64> {
     31 => { if let Ok(h) = JwsHeader::from_json_slice(bytes) { sink((h.alg(), h.kid(), h.b64(), h.crit(), h.typ(), h.nonce())); let _ = h.to_json(); } }
     32 => { if let Ok(vc) = SdJwtVc::parse(&t) { sink((vc.claims().iss.to_string(), vc.claims().vct.to_string())); let _ = crate::jws_storage::rt().block_on(vc.issuer_metadata(&NoResolver)); let _ = crate::jws_storage::rt().block_on(vc.type_metadata(&NoResolver)); let _ = crate::jws_storage::rt().block_on(vc.issuer_jwk(&NoResolver)); let key = doc.methods(None)[0].data().public_key_jwk().unwrap().clone(); let _ = vc.verify_signature(&AnyVerifier, &key); } }
     33 => { for sc in [None, Some(MethodScope::VerificationMethod), Some(MethodScope::assertion_method())] { let _ = doc.resolve_method(t.as_str(), sc); } let _ = doc.resolve_service(t.as_str()); let mut d2 = doc.clone(); let _ = d2.remove_method(&match DIDUrl::parse(&t) { Ok(u) => u, Err(_) => return vec![0] }); }
+    34 => { if let Ok(sv) = Service::from_json_slice(bytes) { if let Ok(l) = LinkedDomainService::try_from(sv.clone()) { sink((l.domains().len(), l.id().to_string())); let _ = Service::from(l).to_json(); } let _ = LinkedDomainService::check_structure(&sv); } }
+    35 => { if let Ok(sv) = Service::from_json_slice(bytes) { if let Ok(l) = LinkedVerifiablePresentationService::try_from(sv.clone()) { sink((l.verifiable_presentation_urls().len(), l.id().to_string())); let _ = Service::from(l).to_json(); } let _ = LinkedVerifiablePresentationService::check_structure(&sv); } }
+    36 => { if let Ok(cfg) = DomainLinkageConfiguration::from_json_slice(bytes) { sink((cfg.linked_dids().len(), cfg.issuers().map(|v| v.len()).ok())); let _ = cfg.to_json();
+            let v = JwtDomainLinkageValidator::with_signature_verifier(AnyVerifier); let dom = Url::parse("https://foo.example.com").unwrap();
+            let _ = v.validate_linkage(&doc, &cfg, &dom, &JwtCredentialValidationOptions::default());
+            for j in cfg.linked_dids() { let _ = v.validate_credential(&doc, j, &dom, &JwtCredentialValidationOptions::default()); } } }
+    37 => { if let Ok(tm) = serde_json::from_slice::<TypeMetadata>(bytes) { sink((tm.name(), tm.description(), tm.extends().map(|u| u.to_string()), tm.extends_integrity(), tm.claim_metadata().len(), tm.display_metadata().len()));
+            let cred = json!({"vct": "https://issuer.example/type", "name": "x", "address": {"street": "s"}, "degrees": [{"n": 1}, null, 3]});
+            let _ = tm.validate_credential(&cred); for cm in tm.claim_metadata() { let _ = cm.check_value_disclosability(&cred); sink(cm.path.to_string()); }
+            let _ = crate::jws_storage::rt().block_on(tm.validate_credential_with_resolver(&cred, &NoJsonResolver)); let _ = serde_json::to_vec(&tm); } }
+    38 => { if let Ok(cm) = serde_json::from_slice::<ClaimMetadata>(bytes) { for v in [json!({"name": "x", "address": {"street": "s", "_sd": ["a"]}, "degrees": [{"n": 1}, null, 3], "_sd": ["d"]}), json!([1, 2]), json!(null), json!({"degrees": [{"...": "x"}]})] { let _ = cm.check_value_disclosability(&v); } sink(cm.path.to_string()); let _ = serde_json::to_vec(&cm); } }
+    39 => { if let Ok(im) = serde_json::from_slice::<IssuerMetadata>(bytes) { let tok = format!("{}.{}.{}~", identity_jose::jwu::encode_b64(br#"{"alg":"EdDSA","typ":"vc+sd-jwt"}"#), identity_jose::jwu::encode_b64(br#"{"iss":"https://issuer.example/a","vct":"https://issuer.example/type","iat":1}"#), identity_jose::jwu::encode_b64([7u8; 64]));
+            if let Ok(vc) = SdJwtVc::parse(&tok) { let _ = im.validate(&vc); } let _ = serde_json::to_vec(&im); } }
+    40 => { use std::str::FromStr; let _ = identity_core::common::StringOrUrl::parse(&t).map(|x| (x.to_string(), x.as_url().is_some())); let _ = Url::parse(&t).map(|u| (u.to_string(), u.join(&t).is_ok()));
+            let _ = MethodScope::from_str(&t); let _ = identity_verification::MethodType::from_str(&t).map(|m| m.to_string()); let _ = JwsAlgorithm::from_str(&t).map(|a| a.name());
+            let _ = identity_credential::revocation::status_list_2021::StatusPurpose::from_str(&t); }
+    41 => { if let Ok(c) = Credential::<Object>::from_json_slice(bytes) { if let Ok(sl) = StatusList2021Credential::try_from(c) { let _ = sl.purpose(); for i in [0usize, 7, 8, 131071, 131072, usize::MAX] { let _ = sl.entry(i); } let mut m = sl.clone(); let ix = extra.first().copied().unwrap_or(0) as usize;
+            let _ = m.update(|l| { let _ = l.set_entry(ix, true); let _ = l.set_entry(usize::MAX, false); let _ = l.set_entry(1, true); Ok(()) }); let _ = sl.to_json(); let _ = Credential::from(sl).to_json(); } } }
     _ => { let _ = serde_json::from_slice::<Value>(bytes); }
   }
   vec![0]
@@ -169,8 +194,18 @@ pub fn gen(rng: &mut Rng, thorough: bool, sink: &mut Sink) {
     (29, vec![b"iota".to_vec(), b"smr".to_vec(), b"Rms".to_vec(), b"toolongname".to_vec(), b"a:b".to_vec(), b"".to_vec()]),
     (32, vec![sdvc.clone().into_bytes(), sdvc_did.clone().into_bytes()]),
     (33, vec![b"did:example:issuer#k".to_vec(), b"#k".to_vec(), b"k".to_vec(), b"did:example:issuer?x#k".to_vec()]),
+    (40, vec![b"https://foo.example.com/a?b#c".to_vec(), b"did:example:1".to_vec(), b"VerificationMethod".to_vec(), b"authentication".to_vec(), b"EdDSA".to_vec(), b"revocation".to_vec(), b"JsonWebKey".to_vec(), b"".to_vec(), b"//".to_vec(), b"a b".to_vec()]),
     (15, vec![packed.clone(), b"DID\x01\x00\x02\x00{}".to_vec()]),
   ];
+  // token-level enumeration of DID-shaped strings: every sequence of up to `tdepth` tokens after "did:" (CoreDID, DIDUrl, IotaDID entry points)
+  let tag64 = "0x1111111111111111111111111111111111111111111111111111111111111111";
+  let toks: Vec<&str> = vec![":", "iota", "smr", "0x", tag64, "a", "/", "?", "#", "%41", " ", "IOTA", "x=1"];
+  let small: Vec<&str> = vec![":", "iota", "0x", tag64, "a"];
+  let tdepth = if thorough { 5 } else { 4 };
+  let mut seqs: Vec<String> = vec![String::new()]; let mut fr: Vec<String> = vec![String::new()];
+  for d in 0..tdepth { let mut nx = vec![]; for f in &fr { for t in if d < 3 || thorough { &toks } else { &small } { nx.push(format!("{f}{t}")); } } seqs.extend(nx.iter().cloned()); fr = nx; }
+  { let mut nx = vec![]; for f in &fr { if f.chars().all(|c| c != '/' && c != '?' && c != '#' && c != '%' && c != ' ') { for t in &small { nx.push(format!("{f}{t}")); } } } if !thorough { nx.truncate(40000); } seqs.extend(nx); }
+  for sq in &seqs { let st = format!("did:{sq}"); emit(4, st.as_bytes(), &[], "did-tokens", sink); if sq.len() < 40 { emit(1, st.as_bytes(), &[], "did-tokens", sink); emit(2, st.as_bytes(), &[], "did-tokens", sink); } }
   let n_mut = if thorough { 400 } else { 60 };
   for (e, seeds) in &text_seeds { for sd in seeds { emit(*e, sd, &[], "seed", sink); for _ in 0..n_mut { let m = mutate(rng, sd, alpha); emit(*e, &m, &[rng.range(-3, 140000)], "seed-mutation", sink); } } }
   let json_seeds: Vec<(i64, Vec<Value>)> = vec![
@@ -178,7 +213,17 @@ pub fn gen(rng: &mut Rng, thorough: bool, sink: &mut Sink) {
     (9, vec![json!({"keys": [jwk_ed.clone(), jwk_ec.clone()]})]), (11, vec![flat.clone()]), (12, vec![general.clone()]),
     (13, vec![serde_json::from_str(DOC).unwrap()]), (14, vec![iota_doc.clone()]), (16, vec![cred.clone()]), (17, vec![pres.clone()]), (18, vec![cred["credentialStatus"].clone(), json!({"id": "https://example.com/status#94567", "type": "StatusList2021Entry", "statusPurpose": "revocation", "statusListIndex": "94567", "statusListCredential": "https://example.com/status"})]),
     (20, vec![serde_json::from_str::<Value>(DOC).unwrap()["service"][0].clone()]), (25, vec![serde_json::from_str::<Value>(DOC).unwrap()["verificationMethod"][0].clone(), json!({"id": "did:a:b#k", "controller": "did:a:b", "type": "Ed25519VerificationKey2018", "publicKeyMultibase": "z6Mk"}), json!({"id": "did:a:b", "controller": "did:a:b", "type": "X", "publicKeyBase58": "0OIl"})]),
-    (30, vec![json!(["a", "b"]), json!("a"), json!(["a", "a"]), json!([])]), (31, vec![json!({"alg": "EdDSA", "kid": "k", "b64": false, "crit": ["b64"], "typ": "JWT", "nonce": "n", "custom": 1})]),
+    (30, vec![json!(["a", "b"]), json!("a"), json!(["a", "a"]), json!([])]),
+    (34, vec![json!({"id": "did:example:issuer#dl", "type": "LinkedDomains", "serviceEndpoint": {"origins": ["https://foo.example.com", "https://bar.example.com"]}}), json!({"id": "did:example:issuer#dl", "type": ["LinkedDomains"], "serviceEndpoint": "https://foo.example.com"}),
+              json!({"id": "did:example:issuer#dl", "type": "LinkedDomains", "serviceEndpoint": {"origin": ["https://foo.example.com"]}}), json!({"id": "did:example:issuer#dl", "type": "LinkedDomains", "serviceEndpoint": {"other": [], "origins": []}}), json!({"id": "did:example:issuer#dl", "type": "LinkedDomains", "serviceEndpoint": ["https://foo.example.com"]})]),
+    (35, vec![json!({"id": "did:example:issuer#lvp", "type": "LinkedVerifiablePresentation", "serviceEndpoint": ["https://foo.example.com/vp.jwt", "https://bar.example.com/vp.jwt"]}), json!({"id": "did:example:issuer#lvp", "type": "LinkedVerifiablePresentation", "serviceEndpoint": "https://foo.example.com/vp.jwt"}),
+              json!({"id": "did:example:issuer#lvp", "type": "LinkedVerifiablePresentation", "serviceEndpoint": {"origins": ["https://foo.example.com"]}}), json!({"id": "did:example:issuer#lvp", "type": "LinkedVerifiablePresentation", "serviceEndpoint": []})]),
+    (36, vec![json!({"@context": "https://identity.foundation/.well-known/did-configuration/v1", "linked_dids": [jws_ed.clone(), jws_ec.clone()]}), json!({"@context": "https://identity.foundation/.well-known/did-configuration/v1", "linked_dids": [hdr(json!({"alg": "EdDSA", "kid": "did:example:issuer#k"}), &serde_json::to_vec(&json!({"iss": "did:example:issuer", "sub": "did:example:issuer", "nbf": 1262304000, "exp": 1893456000, "vc": {"@context": ["https://www.w3.org/2018/credentials/v1", "https://identity.foundation/.well-known/did-configuration/v1"], "type": ["VerifiableCredential", "DomainLinkageCredential"], "credentialSubject": {"origin": "https://foo.example.com"}}})).unwrap(), &[7u8; 64])]})]),
+    (37, vec![json!({"vct": "https://issuer.example/type", "name": "n", "description": "d", "extends": "https://issuer.example/loop", "extends#integrity": "sha256-9cLlJNXN2TlqRXkHJ1VtbMkeCXzeXbFLQaAkUFGl7Tk", "schema": {"type": "object", "properties": {"name": {"type": "string"}}}, "claims": [{"path": ["name"], "sd": "always"}, {"path": ["degrees", null, "n"], "sd": "never"}, {"path": ["degrees", 1]}], "display": [{"lang": "en", "name": "x"}]}),
+              json!({"vct": "https://issuer.example/type", "schema_uri": "https://issuer.example/schema", "schema_uri#integrity": "sha256-9cLlJNXN2TlqRXkHJ1VtbMkeCXzeXbFLQaAkUFGl7Tk", "extends": "https://issuer.example/other"}), json!({"vct": "https://issuer.example/type"})]),
+    (38, vec![json!({"path": ["address", "street"], "sd": "always"}), json!({"path": ["degrees", null, "n"], "sd": "never", "display": [{"lang": "en", "label": "l"}]}), json!({"path": ["degrees", 2], "sd": "allowed", "svg_id": "x"}), json!({"path": []}), json!({"path": [null]}), json!({"path": [-1]})]),
+    (39, vec![json!({"issuer": "https://issuer.example/a", "jwks": {"keys": [jwk_ed.clone()]}}), json!({"issuer": "https://issuer.example/a", "jwks_uri": "https://issuer.example/jwks"}), json!({"issuer": "did:example:x", "jwks_uri": "https://issuer.example/jwks", "jwks": {"keys": []}})]),
+    (41, vec![cred.clone()]), (31, vec![json!({"alg": "EdDSA", "kid": "k", "b64": false, "crit": ["b64"], "typ": "JWT", "nonce": "n", "custom": 1})]),
   ];
   for (e, seeds) in &json_seeds { for sd in seeds { let txt = serde_json::to_vec(sd).unwrap(); emit(*e, &txt, &[0], "seed", sink);
       let muts = json_mutations(sd); let take = if thorough { muts.len() } else { muts.len().min(250) }; let step = (muts.len() / take.max(1)).max(1);
